@@ -97,7 +97,8 @@ def gen_queries(rnd, common, dictionary, tier):
     add(b"\xf4\x90\x80\x80" * 2)   # > U+10FFFF
     add(b"aaaaaaa\xff")
     add(b"\xffaaaaaaa")
-    alphabet = "abcdefghijklmnopqrstuvwxyzABCDEFGHIJKLMNOPQRSTUVWXYZ0123456789 !#äÖß€"
+    # with runes on which lower-casing and Unicode case FOLDING disagree (İ ı ſ ς σ Σ K Å ǅ): the name rule compares lower-cased text
+    alphabet = "abcdefghijklmnopqrstuvwxyzABCDEFGHIJKLMNOPQRSTUVWXYZ0123456789 !#äÖß€İıſςσΣ\u212a\u212bǅsSkKiI"
     for _ in range(3000 if tier == "quick" else 60000):
         n = rnd.choice([0, 1, 5, 6, 7, 7, 8, 8, 8, 9, 9, 10, 12, 16, 24, 33, 64])
         s = "".join(rnd.choice(alphabet) for _ in range(n)).encode()
@@ -120,6 +121,15 @@ def gen_queries(rnd, common, dictionary, tier):
     add("ÜBERMENSCH".encode(), ["übermensch".encode()])
     add("KELVINK12".encode(), ["kelvink12".encode()])
     add("İSTANBUL1".encode(), ["i̇stanbul1".encode()])
+    # lower-casing versus case folding
+    add("ibrahimkaya".encode(), ["İbrahimKaya".encode()])
+    add("İbrahimKaya".encode(), ["ibrahimkaya".encode()])
+    add("paſſword1!".encode(), ["Password1!".encode()])
+    add("Password1!".encode(), ["paſſword1!".encode()])
+    add("σίσυφος12".encode(), ["ΣΊΣΥΦΟΣ12".encode()])
+    add("ΣΊΣΥΦΟς12".encode(), ["σίσυφοσ12".encode()])
+    add("\u212aelvin-273".encode(), ["kelvin-273".encode()])
+    add("ırmak-ırmak".encode(), ["IRMAK-IRMAK".encode()])
     return qs
 
 
